@@ -435,6 +435,12 @@ func judgeExited(cs Case, gr *groupRun, c *drv.Ctx) verdict {
 		}
 		return verdict{inconclusive: fmt.Sprintf("caller gave no report (wait: %v, stderr: %.300q)", gr.waitErr, eb)}
 	}
+	if rep.SigintWasIgnored {
+		c.Add("callers_that_inherited_sigint_ignored_and_reset_it", 1)
+	}
+	if !rep.SigintDefault {
+		return verdict{inconclusive: "the caller could not establish the default SIGINT environment for its launchers: " + rep.SigintNote}
+	}
 	// ---- the caller has exited (it was waited for) ----
 	// first look at /proc, then let every daemon prove that it still runs
 	after := make([]pstat, n)
@@ -716,21 +722,27 @@ func genCase(class string, seed int64, part, run int) Case {
 	return cs
 }
 
+// tmpRoot creates the scratch directory of this process: verif-daemonlaunch-<pid>-<starttime>-<rand>.
+// Directories whose owner (that pid with that start time) no longer exists are left-overs of a
+// killed shard process and are removed; a directory of a live process - of this or of any other
+// check running on the machine - is never touched.
 func tmpRoot() (string, error) {
-	// remove what a killed shard process of an earlier run may have left
 	old, _ := filepath.Glob(filepath.Join(os.TempDir(), "verif-daemonlaunch-*"))
 	for _, o := range old {
 		f := strings.Split(filepath.Base(o), "-")
-		if len(f) >= 3 {
-			if pid, err := strconv.Atoi(f[2]); err == nil {
-				// the owner is gone when the pid is free or belongs to some other program by now
-				if cl, err := os.ReadFile(fmt.Sprintf("/proc/%d/cmdline", pid)); err != nil || !strings.Contains(string(cl), "daemonlaunch") {
-					os.RemoveAll(o)
-				}
-			}
+		if len(f) < 5 {
+			continue
+		}
+		pid, err1 := strconv.Atoi(f[2])
+		start, err2 := strconv.ParseUint(f[3], 10, 64)
+		if err1 != nil || err2 != nil {
+			continue
+		}
+		if _, same := sameProcess(pid, start); !same {
+			os.RemoveAll(o)
 		}
 	}
-	return os.MkdirTemp("", fmt.Sprintf("verif-daemonlaunch-%d-", os.Getpid()))
+	return os.MkdirTemp("", fmt.Sprintf("verif-daemonlaunch-%d-%d-", os.Getpid(), readStat(os.Getpid()).Start))
 }
 
 // execCase runs a scenario; an inconclusive scenario is retried twice.
